@@ -1,12 +1,215 @@
 /-
   UnytModel.Ops.C04 — opcodes of the C04 model (prefix `c04.`).
+
+  c04.rules                                     dump of the regenerated tables (translator cross-check)
+  c04.lutadd  name scale [offset] dim prefixable `registry.add(name, scale, dim, offset=…, prefixable=…)` on table 0
+  c04.cancel  coeff factors                     `_cancel_mul(expr, registry)`
+  c04.binary  ufunc k0 <unit0> z0 k1 <unit1> z1 pexp x0 x1
+                                                the binary value path (`k` = q: quantity, b: bare;
+                                                `<unit>` = 5 fields; `z` = all-zero flag)
+  c04.unary   ufunc method n <unit> x           the unary value path
+  c04.dot     <unit0> <unit1>                   `unyt_array.dot`
+  c04.pow     <unit> p                          `unyt_array.__pow__`
+  c04.outfix  <old unit of out> mul             the `multiply(out, mul, out=out)` fix-up: terminates or recurses
+  c04.prog    n  <unit x>*n  tok…               a whole expression program (postfix: L<i>, B:<ufunc>,
+                                                U:<ufunc>, P:<p/q>) through `Prog.evalModel`
 -/
 import UnytModel.DriverBase
+import UnytModel.UfuncValue
+import UnytModel.UfuncProgram
 
 namespace Unyt
+open Unyt.UV
 
-def opsC04 : Handler := fun _st fields =>
-  match fields with
+/-- the numeric kernels the driver can evaluate itself at `Float` (for the others the harness
+    applies NumPy's kernel to the factors the model returns) -/
+def kernelFloat2 : String → Option (Float → Float → Float)
+  | "add" => some (· + ·)
+  | "subtract" => some (· - ·)
+  | "multiply" | "matmul" | "vecdot" => some (· * ·)
+  | "divide" => some (· / ·)
+  | "maximum" | "fmax" => some fun a b => if a ≥ b then a else b
+  | "minimum" | "fmin" => some fun a b => if a ≤ b then a else b
+  | "hypot" => some fun a b => Float.sqrt (a * a + b * b)
+  | "floor_divide" => some fun a b => Float.floor (a / b)
+  | "remainder" => some fun a b =>
+    -- NumPy's remainder takes the sign of the divisor, also for a zero result
+    let r := a - b * Float.floor (a / b)
+    if r == 0 then (if b < 0 then -0.0 else 0.0) else r
+  | "arctan2" => some Float.atan2
+  | "copysign" => some fun a b => if b < 0 then -a.abs else a.abs
+  | "greater" => some fun a b => if a > b then 1 else 0
+  | "greater_equal" => some fun a b => if a ≥ b then 1 else 0
+  | "less" => some fun a b => if a < b then 1 else 0
+  | "less_equal" => some fun a b => if a ≤ b then 1 else 0
+  | "equal" => some fun a b => if a == b then 1 else 0
+  | "not_equal" => some fun a b => if a != b then 1 else 0
   | _ => none
+
+def kernelFloat1 : String → Option (Float → Float)
+  | "negative" => some fun a => -a
+  | "absolute" | "fabs" => some Float.abs
+  | "positive" | "conjugate" => some id
+  | "sqrt" => some Float.sqrt
+  | "cbrt" => some Float.cbrt
+  | "square" => some fun a => a * a
+  | "reciprocal" => some fun a => 1 / a
+  | "sin" => some Float.sin
+  | "cos" => some Float.cos
+  | "tan" => some Float.tan
+  | _ => none
+
+def optUnitOut (u : Option (UnitV Float)) : String :=
+  match u with
+  | some u => s!"1\t{bitsStr u.scale}\t{bitsStr u.offset}\t{u.dim.str}\t{bitsStr u.expr.coeff}\t{Factors.str (UExpr.normF u.expr.factors)}"
+  | none => "0\t-\t-\t-\t-\t-"
+
+def parseOpnd (k sc off dim co fac z : String) : Option (Opnd Float) :=
+  match parseBool z with
+  | none => none
+  | some zb =>
+    if k == "b" then some ⟨none, zb⟩
+    else if k == "q" then (parseUnitV sc off dim co fac).map fun u => ⟨some u, zb⟩
+    else none
+
+def outLine (o : Out Float) (val : String) : String :=
+  let early := match o.early with | some true => "1" | some false => "0" | none => "-"
+  s!"ok\t{optUnitOut o.unit}\t{bitsStr o.conv}\t{bitsStr o.mul}\t{bitsStr o.post}\t{early}\t{val}"
+
+/-- parse `n` leaves (6 fields each: the unit's 5 fields and the number) -/
+def parseLeaves : Nat → List String → Option (List (UnitV Float × Float) × List String)
+  | 0, rest => some ([], rest)
+  | n + 1, sc :: off :: dim :: co :: fac :: x :: rest =>
+    match parseUnitV sc off dim co fac, fb x, parseLeaves n rest with
+    | some u, some v, some (l, r) => some ((u, v) :: l, r)
+    | _, _, _ => none
+  | _, _ => none
+
+/-- build a program from postfix tokens -/
+def parseProg (toks : List String) : Option (Prog Float) :=
+  let step (st : Option (List (Prog Float))) (tok : String) : Option (List (Prog Float)) :=
+    match st with
+    | none => none
+    | some stack =>
+      if tok.startsWith "L" then (tok.drop 1).toNat?.map fun i => Prog.leaf i :: stack
+      else if tok.startsWith "B:" then
+        let f := (tok.drop 2).toString
+        match kernelFloat2 f, stack with
+        | some F, b :: a :: r => some (Prog.bin f F a b :: r)
+        | _, _ => none
+      else if tok.startsWith "U:" then
+        let f := (tok.drop 2).toString
+        match kernelFloat1 f, stack with
+        | some G, a :: r => some (Prog.un f G a :: r)
+        | _, _ => none
+      else if tok.startsWith "P:" then
+        match parseRat (tok.drop 2).toString, stack with
+        | some p, a :: r => some (Prog.pow p (fun x => Float.pow x (ratToFloat p)) a :: r)
+        | _, _ => none
+      else none
+  match toks.foldl step (some []) with
+  | some [p] => some p
+  | _ => none
+
+def stepC04 (st : DriverState) (fields : List String) : Option (DriverState × String) :=
+  let pre := st.pre
+  let t := st.luts[0]!
+  match fields with
+  | ["c04.rules"] =>
+    let kv (l : List (String × String)) := ";".intercalate (l.map fun p => s!"{p.1}={p.2}")
+    let G := Generated.C04.convRules
+    some (st, s!"ok\t{kv Generated.C04.ufuncRules}\t{",".intercalate G}\t{",".intercalate Generated.C04.postMulRules}\t{",".intercalate Generated.C04.reducePowerUfuncs}\t{",".intercalate Generated.C04.trigOperators}\t{",".intercalate Generated.C04.eqNeUfuncs}")
+  | ["c04.rule", f] =>
+    match ruleOf f with
+    | some r => some (st, s!"ok\t{r.pyName}")
+    | none => some (st, "err\tKeyError")
+  | ["c04.lutadd", name, sc, dim, pf] =>
+    match fb sc, Dim.parse dim, parseBool pf with
+    | some s, some d, some p =>
+      some ({ st with luts := st.luts.set! 0 (t.set name ⟨s, d, 0, p⟩) }, "ok")
+    | _, _, _ => some (st, "bad-op")
+  | ["c04.lutadd", name, sc, off, dim, pf] =>
+    match fb sc, fb off, Dim.parse dim, parseBool pf with
+    | some s, some o, some d, some p =>
+      some ({ st with luts := st.luts.set! 0 (t.set name ⟨s, d, o, p⟩) }, "ok")
+    | _, _, _, _ => some (st, "bad-op")
+  | ["c04.cancel", co, fac] =>
+    match fb co, Factors.parse fac with
+    | some c, some f =>
+      match cancelMul pre t (⟨c, f⟩ : UExpr Float) with
+      | .ok e => some (st, s!"ok\t{bitsStr e.coeff}\t{Factors.str (UExpr.normF e.factors)}")
+      | .error e => some (st, s!"err\t{e.str}")
+    | _, _ => some (st, "bad-op")
+  | ["c04.binary", f, k0, s0, o0, d0, c0, f0, z0, k1, s1, o1, d1, c1, f1, z1, pexp, x0, x1] =>
+    let pe : Option (Option Rat) := if pexp == "-" then some none else (parseRat pexp).map some
+    match parseOpnd k0 s0 o0 d0 c0 f0 z0, parseOpnd k1 s1 o1 d1 c1 f1 z1, pe, fb x0, fb x1 with
+    | some a, some b, some p, some x0, some x1 =>
+      match dispatchBinary UnitV.eqFloat pre t f a b p with
+      | .error e => some (st, s!"err\t{e.str}")
+      | .ok o =>
+        let val :=
+          if f == "power" then
+            match p with
+            | some q => bitsStr (o.mul * (Float.pow x0 (ratToFloat q) * o.post))
+            | none => "-"
+          else match kernelFloat2 f with
+            | some F => bitsStr (o.value F x0 x1)
+            | none => "-"
+        some (st, outLine o val)
+    | _, _, _, _, _ => some (st, "bad-op")
+  | ["c04.unary", f, method, n, s0, o0, d0, c0, f0, x] =>
+    match n.toNat?, parseUnitV s0 o0 d0 c0 f0, fb x with
+    | some n, some u, some x =>
+      match dispatchUnary UnitV.eqFloat pre t f method u n with
+      | .error e => some (st, s!"err\t{e.str}")
+      | .ok o =>
+        let ic := match o.inConv with
+          | some (c, some off) => s!"{bitsStr c}\t{bitsStr off}"
+          | some (c, none) => s!"{bitsStr c}\t-"
+          | none => "-\t-"
+        let val := match kernelFloat1 f with
+          | some F => if method == "__call__" then bitsStr (o.value F x) else "-"
+          | none => "-"
+        some (st, s!"ok\t{optUnitOut o.unit}\t{bitsStr o.mul}\t{ic}\t{val}")
+    | _, _, _ => some (st, "bad-op")
+  | ["c04.dot", s0, o0, d0, c0, f0, s1, o1, d1, c1, f1] =>
+    match parseUnitV s0 o0 d0 c0 f0, parseUnitV s1 o1 d1 c1 f1 with
+    | some u, some v =>
+      match dotUnits u v with
+      | .ok o => some (st, outLine o "-")
+      | .error e => some (st, s!"err\t{e.str}")
+    | _, _ => some (st, "bad-op")
+  | ["c04.pow", s0, o0, d0, c0, f0, p] =>
+    match parseUnitV s0 o0 d0 c0 f0, parseRat p with
+    | some u, some q =>
+      match powDunder UnitV.eqFloat pre t u q with
+      | .ok o => some (st, outLine o "-")
+      | .error e => some (st, s!"err\t{e.str}")
+    | _, _ => some (st, "bad-op")
+  | ["c04.outfix", s0, o0, d0, c0, f0, m] =>
+    match parseUnitV s0 o0 d0 c0 f0, fb m with
+    | some u, some m =>
+      match outFixup pre t u m with
+      | .ok (some f) => some (st, s!"ok\tfixed\t{bitsStr f}")
+      | .ok none => some (st, "ok\trecursion")
+      | .error e => some (st, s!"err\t{e.str}")
+    | _, _ => some (st, "bad-op")
+  | "c04.prog" :: n :: rest =>
+    match n.toNat? with
+    | none => some (st, "bad-op")
+    | some n =>
+      match parseLeaves n rest with
+      | none => some (st, "bad-op")
+      | some (leaves, toks) =>
+        match parseProg toks with
+        | none => some (st, "bad-op")
+        | some p =>
+          let env : Nat → UnitV Float × Float := fun i => leaves.getD i (UnitV.dimensionless, 0)
+          match p.evalModel UnitV.eqFloat pre t env with
+          | .ok (u, v) => some (st, s!"ok\t{optUnitOut (some u)}\t{bitsStr v}")
+          | .error e => some (st, s!"err\t{e.str}")
+  | _ => none
+
+def opsC04 : Handler := stepC04
 
 end Unyt
